@@ -220,6 +220,40 @@ def run(ctx, rep):
     from . import c05, c12
 
     c05.rule_data_offset(ctx, rep)
+    # ---------------------------------------------------------- R-UNSIZE: the unsizing glue keeps the handle's own pointer
+    n_unsize = 0
+    for tag, F, E in ctx.each():
+        N = ptrclass.Norm(F)
+        byimpl = {}
+        for b in F.body_list:
+            imp = b.get("impl") or {}
+            if (imp.get("trait") or "").endswith("CoerciblePtr") and F.ty(imp["self_ty"]).get("local") and b.get("name") in ("as_sized_ptr", "replace_ptr"):
+                byimpl.setdefault(imp["path"], {})[b["name"]] = b
+        for ip, ms in byimpl.items():
+            if len(ms) != 2:
+                continue
+            n_unsize += 1
+            hn = F.handle_name(ms["replace_ptr"]["impl"]["self_ty"]) or F.ts(ms["replace_ptr"]["impl"]["self_ty"])
+            ik = "%s: CoerciblePtr" % hn
+            s_ptr = N.ret(ms["as_sized_ptr"]["key"])
+            r = N.ret(ms["replace_ptr"]["key"])
+            inner = r
+            while inner[0] == "mk":
+                inner = inner[2]
+
+            def own_stored(n):
+                while n[0] == "stored":
+                    n = n[1]
+                return n == ("arg", 1)
+
+            if s_ptr[0] != "stored" or not own_stored(s_ptr):
+                rep.bad("R-UNSIZE", ik, "as_sized_ptr hands out %s, not the pointer stored in the handle: the unsizing machinery attaches the new metadata to that address, and replace_ptr re-wraps it as the handle's pointer" % ptrclass.show(s_ptr), F.loc(ms["as_sized_ptr"]), tag)
+            elif inner != s_ptr and inner != ("arg", 2):  # `new` carries the address as_sized_ptr returned (the unsize contract)
+                rep.bad("R-UNSIZE", ik, "replace_ptr builds the result around %s, but the pointer this handle stores (and hands to the coercion) is %s: after an unsize coercion the handle would point elsewhere in (or outside) its block" % (ptrclass.show(inner), ptrclass.show(s_ptr)), F.loc(ms["replace_ptr"]), tag)
+            else:
+                rep.ok("R-UNSIZE", ik, "both use %s" % ptrclass.show(s_ptr), cfg=tag)
+    if any(c == "all" for c, _d in ctx.configs):
+        rep.floor("R-UNSIZE", 3, "CoerciblePtr impls of Arc, UniqueArc, ArcBorrow (feature unsize)")
     # ---------------------------------------------------------- R-UNION-ADDR: the ArcBorrow an ArcUnion hands out carries the value's address
     for tag, F, E in ctx.each():
         u = F.adts.get(F.handle_paths.get("ArcUnion", ""))
